@@ -71,9 +71,10 @@ def obligations(pid, extra=()):
     return out
 
 
-def proof_audit(pid, extra=()):
-    """returns dict(ok, obligations, discharged, axioms, problems)"""
-    res = {"ok": False, "obligations": [], "discharged": [], "axioms": {}, "problems": []}
+def proof_audit(pid, extra=(), recheck=False):
+    """returns dict(ok, obligations, discharged, axioms, problems); recheck: replay the compiled modules of the property in
+    leanchecker, the toolchain's independent re-checker of .olean files (thorough tier)"""
+    res = {"ok": False, "obligations": [], "discharged": [], "axioms": {}, "problems": [], "leanchecker": None}
     try:
         status = open(os.path.join(LEAN, ".lake", "last_build.status")).read().strip()
     except OSError:
@@ -127,6 +128,15 @@ def proof_audit(pid, extra=()):
             res["problems"].append("theorem %s uses non-standard axioms %s" % (o, sorted(extra)))
         else:
             res["discharged"].append(o)
+    if recheck and not res["problems"]:
+        mods = ["CanVerif.Props.%s" % mod for mod in (pid,) + tuple(extra)]
+        try:
+            p = subprocess.run(["lake", "env", "leanchecker"] + mods, cwd=LEAN, capture_output=True, text=True, timeout=1500)
+            res["leanchecker"] = {"modules": mods, "exit": p.returncode}
+            if p.returncode != 0:
+                res["problems"].append("leanchecker rejects %s: %s" % (mods, (p.stdout + p.stderr)[-800:]))
+        except (OSError, subprocess.TimeoutExpired) as e:
+            res["leanchecker"] = {"modules": mods, "exit": None, "note": "not run: %s" % type(e).__name__}
     res["ok"] = not res["problems"]
     return res
 
@@ -308,7 +318,7 @@ def run_check(prop, tier, seed):
     known = load_known(pid)
     open_ids = {e["id"]: e for e in known if e.get("status") == "open"}
 
-    audit = proof_audit(pid, getattr(prop, "EXTRA_PROPS", ()))
+    audit = proof_audit(pid, getattr(prop, "EXTRA_PROPS", ()), recheck=(tier == "thorough"))
 
     # corpus first
     corpus_dir = os.path.join(ROOT, "corpus", pid)
@@ -408,6 +418,7 @@ def run_check(prop, tier, seed):
             "obligation_names": audit["obligations"],
             "axioms": sorted({a for v in audit["axioms"].values() for a in v}),
             "checker_cmd": "cd lean && lake build CanVerif && lake env lean <generated '#print axioms' file for Props/%s.lean>" % pid,
+            "leanchecker": audit.get("leanchecker"),
             "trusted_base": getattr(prop, "TRUSTED", []) + [
                 "Lean 4.33.0 kernel; axioms at most propext, Classical.choice, Quot.sound (audited per theorem on this run)",
                 "hand-written Lean model tied to /repo by the correspondence check below (differential, generator-bounded)",
